@@ -148,3 +148,27 @@ def a_locator_reads_its_ring_and_position_and_leads_back_to_itself(i: int, j: in
     assert g.getLocatorFromRingAndPos(ring, pos, k) is loc, "ring and position name the same locator object"
     up, down = g.getAboveAndBelowCellIndices((i, j, k))
     assert up == (i, j, k + 1) and down == (i, j, k - 1), "the axial neighbours are one index above and below"
+
+
+AxialGrid = repo("armi.reactor.grids.axial:AxialGrid")
+
+
+@lemma(gen={"n": (1, 5)})
+def a_unit_axial_grid_has_one_centimetre_cells(n: int):
+    """AxialGrid.fromNCells(n), n = 1..5 enumerated: n + 1 bounds 0, 1, .., n (floats - integers would truncate the
+    midpoints); cell k has base k, top k + 1 and centre k + 1/2; the grid is axial-only, getBounds returns what the
+    constructor stored, and the locator of cell k carries (0, 0, k)."""
+    n = choose(n, 1, 5)
+    g = AxialGrid.fromNCells(n)
+    assert g.isAxialOnly
+    assert len(g) == n + 1
+    b = g.getBounds()
+    assert b[0] is None and b[1] is None and len(b[2]) == n + 1
+    for k in range(n):
+        assert eq(b[2][k], k) and eq(b[2][k + 1], k + 1)
+        assert eq(g.getCellBase((0, 0, k))[2], k)
+        assert eq(g.getCellTop((0, 0, k))[2], k + 1)
+        assert eq(g.getCoordinates((0, 0, k))[2], k + 0.5), "the centre is the midpoint, not a truncated integer"
+        loc = g[0, 0, k]
+        assert (loc.i, loc.j, loc.k) == (0, 0, k) and loc.grid is g
+        assert eq(loc.getLocalCoordinates()[2], k + 0.5)
